@@ -325,58 +325,69 @@ func (a *A) ruleFutureGuard() {
 // (end = slot.End, and lastActive+timeout which C10 ties to slot.End).
 func (a *A) ruleSessionExpiry() {
 	W := a.Named("window", "SessionWindow")
-	fn := a.Method("window", "SessionWindow", "collectExpiredSessions")
+	entry := a.Method("window", "SessionWindow", "collectExpiredSessions")
 	smap := a.FieldOf(W, "sessionMap")
 	n := 0
-	for _, l := range mapRangeLoops(fn) {
-		if t := TermOf(l.X, nil); t.Kind != "field" || t.Field != smap {
-			continue
+	// the marking loop is in collectExpiredSessions or in a helper method it calls (one level)
+	cands := []*ssa.Function{entry}
+	allInstrs(entry, func(in ssa.Instruction) {
+		if callee := staticCallee(in); callee != nil && callee.Blocks != nil && callee.Signature.Recv() != nil && types.Identical(derefT(callee.Signature.Recv().Type()), W) {
+			cands = append(cands, callee)
 		}
-		var targets []ssa.Instruction
-		for b := range l.Blocks {
-			for _, in := range b.Instrs {
-				if c, ok := in.(*ssa.Call); ok {
-					if _, ok := isBuiltinCall(c, "append"); ok {
-						targets = append(targets, in)
-					}
-					if _, ok := isBuiltinCall(c, "delete"); ok {
-						targets = append(targets, in)
-					}
-					if cal := c.Call.StaticCallee(); cal != nil && a.fnInModule(cal) {
-						targets = append(targets, in)
+	})
+	fn := entry
+	for _, cand := range cands {
+		fn = cand
+		for _, l := range mapRangeLoops(fn) {
+			if t := TermOf(l.X, nil); t.Kind != "field" || t.Field != smap {
+				continue
+			}
+			var targets []ssa.Instruction
+			for b := range l.Blocks {
+				for _, in := range b.Instrs {
+					if c, ok := in.(*ssa.Call); ok {
+						if _, ok := isBuiltinCall(c, "append"); ok {
+							targets = append(targets, in)
+						}
+						if _, ok := isBuiltinCall(c, "delete"); ok {
+							targets = append(targets, in)
+						}
+						if cal := c.Call.StaticCallee(); cal != nil && a.fnInModule(cal) {
+							targets = append(targets, in)
+						}
 					}
 				}
 			}
+			if len(targets) == 0 {
+				continue
+			}
+			n++
+			tset := map[ssa.Instruction]bool{}
+			for _, t := range targets {
+				tset[t] = true
+			}
+			spec := OrdSpec{Roles: []string{"W", "E"},
+				Role: func(t *Term) string {
+					if t.Kind == "param" && isTimeTime(t.Typ) {
+						return "W"
+					}
+					if f, base := slotField(t); f == "End" && isFieldOf(base, "window.session", "slot") {
+						return "E"
+					}
+					if t.Kind == "call" && t.Name == "(time.Time).Add" && len(t.Args) == 2 &&
+						isFieldOf(t.Args[0], "window.session", "lastActive") && isFieldOf(t.Args[1], "window.SessionWindow", "timeout") {
+						return "E" // lastActive+timeout == slot.End (C10 end=last+timeout)
+					}
+					return ""
+				}}
+			a.OnlyIf(fname(fn)+"#expiry-guard", l.Header.Instrs[0].Pos(), "a session is marked expired only when time >= its end", spec,
+				l.Body, l.Header, func(b *ssa.BasicBlock) bool { return b == l.Header },
+				func(in ssa.Instruction, _ *Walker) bool { return tset[in] },
+				func(r map[string]int, _ map[string]bool) bool { return r["W"] >= r["E"] })
 		}
-		if len(targets) == 0 {
-			continue
-		}
-		n++
-		tset := map[ssa.Instruction]bool{}
-		for _, t := range targets {
-			tset[t] = true
-		}
-		spec := OrdSpec{Roles: []string{"W", "E"},
-			Role: func(t *Term) string {
-				if t.Kind == "param" && isTimeTime(t.Typ) {
-					return "W"
-				}
-				if f, base := slotField(t); f == "End" && isFieldOf(base, "window.session", "slot") {
-					return "E"
-				}
-				if t.Kind == "call" && t.Name == "(time.Time).Add" && len(t.Args) == 2 &&
-					isFieldOf(t.Args[0], "window.session", "lastActive") && isFieldOf(t.Args[1], "window.SessionWindow", "timeout") {
-					return "E" // lastActive+timeout == slot.End (C10 end=last+timeout)
-				}
-				return ""
-			}}
-		a.OnlyIf(fname(fn)+"#expiry-guard", l.Header.Instrs[0].Pos(), "a session is marked expired only when time >= its end", spec,
-			l.Body, l.Header, func(b *ssa.BasicBlock) bool { return b == l.Header },
-			func(in ssa.Instruction, _ *Walker) bool { return tset[in] },
-			func(r map[string]int, _ map[string]bool) bool { return r["W"] >= r["E"] })
 	}
 	if n == 0 {
-		a.Und(fname(fn)+"#expiry-guard", fn.Pos(), "no loop over sessionMap that marks sessions found")
+		a.Und(fname(entry)+"#expiry-guard", entry.Pos(), "no loop over sessionMap that marks sessions found")
 	}
 	// sessions are delivered only from the marked set: every delete/send in the function outside that loop iterates the marked keys — decided by C10.
 }
